@@ -798,7 +798,14 @@ class SyncInterpreter(BaseInterpreter[TContext, TEvent]):
                         ancestor.id,
                     )
                 )
-                return  # 🛑 Only fire the event for the nearest completed ancestor.
+                # 🛑 Only fire for the nearest completed ancestor - unless it
+                #    is a region: its completion may be what completes the
+                #    parallel parent (see BaseInterpreter._check_and_fire_on_done).
+                if not (
+                    ancestor.parent is not None
+                    and ancestor.parent.type == "parallel"
+                ):
+                    return
 
             ancestor = ancestor.parent
 
